@@ -67,7 +67,7 @@ func cases(tier string) int {
 	if tier == "thorough" {
 		return 200000
 	}
-	return 1600
+	return 6400
 }
 
 func TestCheck(t *testing.T) {
